@@ -113,6 +113,7 @@ def model_line(case):
     w = ['run', cps(KNOWN_PATH), case['card'], str(b['msgs']), '1' if b.get('partial') else '0',
          '1' if b.get('eof') else '0', case.get('ext', 'none'),
          str(-1 if case.get('ext_at') is None else case['ext_at']), '1' if case.get('paused0') else '0',
+         cps(case.get('codec') or 'proto'),
          'H' if case.get('policy', 'honour') == 'honour' else 'S/' + fin_word(case.get('fin2') or ['ret']),
          fin_word(case['fin']), str(len(case['ops']))]
     w += [op_word(o) for o in case['ops']]
@@ -149,9 +150,9 @@ B64 = set('ABCDEFGHIJKLMNOPQRSTUVWXYZabcdefghijklmnopqrstuvwxyz0123456789+/')
 RESERVED = ('te', 'content-type', 'user-agent')
 
 
-def classify_request(headers):
+def classify_request(headers, codec='proto'):
     """('accept', info) | ('reject', [defects]) | ('unclear', why): what the property statement calls an
-    acceptable gRPC request, decided from the header list alone"""
+    acceptable gRPC request for a server whose codec has content subtype `codec`, decided from the header list"""
     d = dict(headers)
     defects = []
     if d.get(':method') != 'POST':
@@ -159,8 +160,9 @@ def classify_request(headers):
     ct = d.get('content-type')
     if ct is None:
         defects.append('no-content-type')
-    elif ct not in ('application/grpc', 'application/grpc+proto', 'application/grpc+'):
-        # an empty subtype is read as "no subtype" (documented decision, see notes/C03.md)
+    elif ct != 'application/grpc+' + codec and not (codec == 'proto' and ct in ('application/grpc', 'application/grpc+')):
+        # the bare application/grpc means +proto; an empty subtype is read as "no subtype" (see notes/C03.md);
+        # a server with another codec must refuse both
         defects.append('content-type')
     if d.get('te') != 'trailers':
         defects.append('te')
@@ -266,8 +268,9 @@ def oracle(case, obs, can):
                     fail('message-not-ascii', 'grpc-message on the wire is not printable ASCII: %r' % v)
     if obs['violations']:
         fail('h2-violation', 'the validating peer rejected what the server sent: %s' % obs['violations'][:1])
-    cls, info = classify_request([tuple(h) for h in case['headers']])
-    want_ct = 'application/grpc+proto'
+    codec = case.get('codec') or 'proto'
+    cls, info = classify_request([tuple(h) for h in case['headers']], codec)
+    want_ct = 'application/grpc+' + codec          # the content-type the server's codec stands for
     state, why = wire_monitor(frames, want_ct)
     if state == 'BAD':
         fail('malformed', 'response is not well-formed: ' + why)
@@ -394,8 +397,10 @@ STD_BODY = {'msgs': 1, 'partial': False, 'eof': True}
 
 
 def mk(ops, fin, card='UU', body=None, headers=None, policy='honour', fin2=None, ext='none', ext_at=None,
-       paused0=False, hooks_await=False, big=False):
-    return {'headers': [list(h) for h in (headers if headers is not None else BASE)], 'card': card,
+       paused0=False, hooks_await=False, big=False, codec=None):
+    if headers is None:
+        headers = BASE if codec in (None, 'proto') else replaced('content-type', 'application/grpc+' + codec)
+    return {'headers': [list(h) for h in headers], 'codec': codec, 'card': card,
             'body': dict(body or STD_BODY), 'ops': list(ops), 'fin': list(fin), 'policy': policy,
             'fin2': list(fin2 or ['ret']), 'ext': ext, 'ext_at': ext_at, 'paused0': bool(paused0),
             'hooks_await': bool(hooks_await), 'big': bool(big)}
@@ -403,6 +408,9 @@ def mk(ops, fin, card='UU', body=None, headers=None, policy='honour', fin2=None,
 
 # GRPCError / trailers messages that need escaping on the wire: what arrives (decoded) must be what was raised
 TRICKY = ['%41', 'a%2Fb', '100%25', '100%', '%', 'caf\xe9 \u2615', 'a b\tc', 'x\ny', '\u00e9%C3%A9', 'plain']
+
+
+CODECS = ['json', 'x.my-codec']          # servers whose codec is not the proto one
 
 
 def without(name):
@@ -513,8 +521,13 @@ def gen_random(rng, classes):
         ext_at = None
     body = dict(rng.choice(BODIES))
     body['framing'] = rng.choice(['one', 'split', 'sep'])
+    codec = rng.choice([None] * 6 + CODECS)
+    if codec is not None and rng.random() < 0.8:
+        # mostly requests that speak the server's codec; the rest keeps whatever content-type the class has
+        headers = [(k, 'application/grpc+' + codec) if (k == 'content-type' and v == 'application/grpc') else (k, v)
+                   for k, v in headers]
     return mk(ops, fin, rng.choice(CARDS), body, headers, policy, fin2, ext, ext_at,
-              paused0=rng.random() < 0.15, hooks_await=rng.random() < 0.3, big=rng.random() < 0.04)
+              paused0=rng.random() < 0.15, hooks_await=rng.random() < 0.3, big=rng.random() < 0.04, codec=codec)
 
 
 def build_cases(ctx, res):
@@ -551,6 +564,26 @@ def build_cases(ctx, res):
             for fin in FINS_X:
                 if fin[0] != 'wait':
                     add('reply-path-suspends', mk(ops, fin, card, hooks_await=True))
+    # 1e. servers with a non-default codec: every request class (as is, and with the content-type rewritten to the
+    #     server's own where the class has the plain one) x END_STREAM, and every response shape (all programs to
+    #     depth 2 x all endings) -- refusals, response HEADERS and trailers-only must speak the server's codec
+    for codec in CODECS:
+        own = 'application/grpc+' + codec
+        for name, hs in classes + [('own-ct', replaced('content-type', own)),
+                                   ('own-ct-x', replaced('content-type', own + 'x')),
+                                   ('ct-codec-only', replaced('content-type', codec))]:
+            variants = [hs]
+            if any(k == 'content-type' and v == 'application/grpc' for k, v in hs):
+                variants.append([(k, own) if k == 'content-type' else (k, v) for k, v in hs])
+            for v in variants:
+                for eof in (True, False):
+                    for ops, fin, card in ((['R', 'M'], ['ret'], 'UU'), ([], ['grpc', 3, 'bad arg'], 'SS')):
+                        add('codec', mk(ops, fin, card, {'msgs': 1, 'partial': False, 'eof': eof}, v, codec=codec))
+        for ops in all_programs(2):
+            for card in ('UU', 'SS'):
+                for fin in FINS_X:
+                    if fin[0] != 'wait':
+                        add('codec', mk(ops, fin, card, codec=codec))
     # 1d. replies larger than the client's connection window (it advertises 1 MiB per stream, 65535 per
     #     connection, and returns connection-level credit as it reads): the reply path depends on that credit
     for ops in ([ 'M'], ['M', 'M'], ['R', 'M', 'S', 'M'], ['I', 'M', ['T', 0, None]], ['M', ['T', 5, 'nf']],
@@ -699,7 +732,10 @@ def run(ctx):
                 'pairs, duplicates, timeout and -bin spellings) x END_STREAM timing x 3 programs; (1b) the same request '
                 'classes plus deadlines about to expire (1n, 1u) x {transport paused before the request arrives, listeners '
                 'on all five hooks that really await, both} x 4 cardinalities x END_STREAM, and all programs to depth 2 x '
-                '8 endings with awaiting listeners; (1c) GRPCError / explicit-trailer messages that need escaping (%41, '
+                '8 endings with awaiting listeners; (1d) 100000-byte replies to a client that advertises 1 MiB per stream / '
+                '65535 per connection and returns connection-level credit as it reads; (1e) servers built with a non-default '
+                'codec (content subtypes json, x.my-codec): every request class as is and with the server\'s own content-type '
+                'x END_STREAM, all programs to depth 2 x 7 endings x {UU,SS}; (1c) GRPCError / explicit-trailer messages that need escaping (%41, '
                 'a%2Fb, 100%25, lone %, non-ASCII, control characters), compared after percent-decoding; (2) ALL handler '
                 'programs over the 7-letter alphabet {R,I,M,T(OK),T(NOT_FOUND),C,S} up to the depth bound (4 quick; thorough 5 '
                 'for UU and SS, 4 for US and SU) x 4 '
